@@ -27,6 +27,19 @@ def make_world():
         g["id"] = ren.get(g["id"], g["id"])
         for t in g["transcripts"]:
             t["id"] = ren.get(t["id"], t["id"])
+    # a gene whose first intron is not canonical on either strand (its strand is known from the annotation only), full-length reads
+    # of its first isoform and tail-less two-exon reads that fit both isoforms: their strand is what their own splice sites say
+    from vlib import syn
+    gn = [[10001, 10200], [10501, 10700], [11001, 11200]]
+    w["genes"].append({"id": "GN", "chr": "chr1", "strand": "+", "transcripts": [
+        {"id": "TN_1", "exons": [list(e) for e in gn]}, {"id": "TN_2", "exons": [list(e) for e in gn[:2]] + [[11301, 11500]]}]})
+    w["sites"] = [["chr1", 10201, 10500, "nc"]] + w["sites"]
+    syn.plant_for_transcripts(w)
+    W.dedup_sites(w)
+    for i in range(3):
+        w["reads"].append(W.read_of("gnfl%d_gA" % i, "chr1", gn))
+    for i in range(2):
+        w["reads"].append(W.read_of("gnamb%d_gB" % i, "chr1", gn[:2], polya=False))
     return w
 
 
